@@ -83,6 +83,61 @@ def check_disc(rep: Report, cases, ctx, disc, rng, tag="", shapes=None):
             return
 
 
+def check_disc_far(rep: Report, disc, rng, tag):
+    """S199: the same disc with the HEAD cluster of every data file moved beyond cluster 32767 (data more than 302 MB
+    into the image, as on any full CD-ROM); written as a sparse file; oracle only (the model reads whole files)."""
+    import os
+    import struct
+    import tempfile
+    import shutil
+
+    img, info = G.serialize(disc, rng, ("contiguous",))
+    img = bytearray(img)
+    exp = G.expected_export(disc)
+    far = {}
+    heads = sorted({ch[0] for ch in info["chains"].values() if ch})
+    for n, c0 in enumerate(heads):
+        H = [0x8000, 0x8001 + 37 * n, 0xC000 + n, 0xFFF0 - n][n % 4] if n else 0x8000
+        while H in far.values():
+            H += 1
+        v = struct.unpack_from("<H", img, G.FAT_OFF + 2 * c0)[0]
+        struct.pack_into("<H", img, G.FAT_OFF + 2 * H, v)
+        struct.pack_into("<H", img, G.FAT_OFF + 2 * c0, 0)
+        for si in range(0x2000):
+            o = G.DIR["samp"] + 32 * si
+            if img[o + 16] == G.TYPE["samp"] and struct.unpack_from("<H", img, o + 28)[0] == c0:
+                struct.pack_into("<H", img, o + 28, H)
+        far[c0] = H
+    d = tempfile.mkdtemp(prefix="verif_c02_")
+    try:
+        p = os.path.join(d, "far.img")
+        with open(p, "wb") as f:
+            f.write(bytes(img))
+            for c0, H in far.items():
+                a = G.DATA_FAT_OFF + c0 * G.CLUSTER
+                f.seek(G.DATA_FAT_OFF + H * G.CLUSTER)
+                f.write(bytes(img[a:a + G.CLUSTER]))
+                f.seek(a)
+                f.write(b"\xee" * G.CLUSTER)
+        files, exported, err = E.export_real(p)
+    finally:
+        shutil.rmtree(d, ignore_errors=True)
+    rep.feat("head_clusters_beyond_32767", len(far))
+    rep.evaluations += 1
+    detail = {"tag": tag, "moved_heads": {str(k): v for k, v in far.items()}}
+    if err:
+        rep.findings.append(Finding("roland-far-export-crash-" + err, detail))
+        return
+    if sorted(files) != sorted(exp):
+        rep.findings.append(Finding("roland-far-export-file-set", dict(detail, missing=sorted(set(exp) - set(files))[:10], extra=sorted(set(files) - set(exp))[:10])))
+        return
+    for path, want in exp.items():
+        w = E.wav_info(files[path])
+        if not w["ok"] or w["pcm"] != want["pcm"]:
+            rep.findings.append(Finding("roland-far-sample-pcm", dict(detail, path=path, got_len=len(w.get("pcm") or b""), want_len=len(want["pcm"]))))
+            return
+
+
 def targeted_discs(rng):
     W = G.random_words
     out = []
@@ -155,6 +210,10 @@ def run(ctx, rep: Report, deep: bool = False):
         rep.feat("targeted")
     for i in range(ctx.n(6, 150)):
         check_disc(rep, cases, ctx, G.random_disc(rng), rng, f"random{i}")
+    for i in range(ctx.n(3, 30)):
+        dk = G.random_disc(rng)
+        dk.version_flag = 1
+        check_disc_far(rep, dk, rng, f"far{i}")
     if ctx.model_available:
         bad = 0
         for c in cases:
@@ -169,7 +228,7 @@ def run(ctx, rep: Report, deep: bool = False):
         rep.families["roland-e2e"] = {"cases": len(cases), "disagreements": bad}
         if cases:
             rep.sample({"family": "roland-e2e", "op": cases[0].op, "result": cases[0].impl[:300]})
-    rep.required_features = ["images", "targeted", "samples_sharing_a_data_file", "pointer_tables_holes", "pointer_tables_back", "head_not_lowest_chains", "windows_ending_on_cluster_boundary", "fat_version_2", "loop_mode_5", "loop_mode_6", "cluster_top_nonzero"]
+    rep.required_features = ["images", "targeted", "samples_sharing_a_data_file", "pointer_tables_holes", "pointer_tables_back", "head_not_lowest_chains", "windows_ending_on_cluster_boundary", "fat_version_2", "loop_mode_5", "loop_mode_6", "cluster_top_nonzero", "head_clusters_beyond_32767"]
 
 
 def search(ctx, rep: Report):
